@@ -296,7 +296,15 @@ def rule_tagged_hash_layout(ctx: Ctx, rep: Report) -> None:
     rep.floor(rule, 3)
 
 
+def rule_point_coordinates_unreduced_(ctx: Ctx, rep: Report) -> None:
+    """C03.point_coordinates_unreduced: no pair is built from a point's coordinates with the x reduced mod n (see sigcommon.rule_point_coordinates_unreduced)."""
+    from rules.sigcommon import rule_point_coordinates_unreduced
+    rule_point_coordinates_unreduced(ctx, rep, "C03.point_coordinates_unreduced", ('btclib.ecc', 'btclib.curves'))
+
+
 RULES = [
+    ("C03.point_coordinates_unreduced", rule_point_coordinates_unreduced_),
+
     ("C03.tagged_hash_layout", rule_tagged_hash_layout),
     ("C03.config_not_replaced", rule_config_not_replaced_),
     ("C03.hash_params", rule_hash_params_),
